@@ -96,3 +96,162 @@ Definition check19 (c : gcase) : bool * bool :=
 
 Definition run_c19 (cases : list gcase) : list N * list N :=
   (failing (fun c => fst (check19 c)) cases, failing (fun c => snd (check19 c)) cases).
+
+(* ================= C05: analysis exactness, evaluated on the observed Grammar objects ================= *)
+(* independent specification, written from the property text (not from preprocess):
+   - [deriv ne k]: some program of depth <= k is derivable; [ne]: lists count as non-empty
+   - cycles of the "can contain" relation by iterated relational composition *)
+Section Spec05.
+Variable d : decl.
+Variable o : gobs.
+
+Definition oalts (a : sym) : list sym :=
+  match find (fun kv => sym_eqb (fst kv) a) (o_alts o) with Some kv => snd kv | None => [] end.
+
+Definition may_be_empty (t : ty) : bool :=
+  match t with
+  | TList _ => true
+  | TAnn (TList _) (MListSize lo _ _) => lo <=? 0
+  | _ => false
+  end.
+
+(* a value of type t exists whose nodes all come from [f] *)
+Fixpoint tyd (ne : bool) (f : sym -> bool) (t : ty) : bool :=
+  if negb ne && may_be_empty t then true else
+  match t with
+  | TBase b => true
+  | TSym c => f (SC c)
+  | TList t' | TAnn t' _ => tyd ne f t'
+  | TTuple ts => forallb (tyd ne f) ts
+  | TUnion ts => existsb (tyd ne f) ts
+  end.
+
+(* level sets: L k = the symbols from which a program of depth <= k is derivable *)
+Definition base_syms : list sym := [SB BInt; SB BFloat; SB BStr; SB BBool].
+Definition add_new (acc : list sym) (l : list sym) : list sym :=
+  fold_left (fun a x => if mem_sym x a then a else a ++ [x]) l acc.
+Fixpoint abs_close (n : nat) (cur : list sym) : list sym :=
+  match n with
+  | O => cur
+  | S k => abs_close k (add_new cur (filter (fun s => is_abstract d s && existsb (fun a => mem_sym a cur) (oalts s)) (o_nodes o)))
+  end.
+Definition level_next (ne : bool) (cur : list sym) : list sym :=
+  abs_close (length (o_nodes o))
+    (add_new base_syms (filter (fun s => match s with
+                                         | SC _ => negb (is_abstract d s) && forallb (tyd ne (fun x => mem_sym x cur)) (fields_of d s)
+                                         | SB _ => false end) (o_nodes o))).
+Fixpoint least_from (ne : bool) (s : sym) (k : nat) (cur : list sym) (n : nat) : Z :=
+  match n with
+  | O => INF
+  | S n' => if mem_sym s cur then Z.of_nat k else least_from ne s (S k) (level_next ne cur) n'
+  end.
+Definition spec_min_depth (ne : bool) (s : sym) : Z := least_from ne s 0 base_syms (3 + length (o_nodes o)).
+
+(* successors in the can-contain graph, from the declarations and the observed productions *)
+Fixpoint ty_syms (t : ty) : list sym :=
+  match t with
+  | TBase b => [SB b]
+  | TSym c => [SC c]
+  | TList t' | TAnn t' _ => ty_syms t'
+  | TTuple ts | TUnion ts => flat_map ty_syms ts
+  end.
+Definition osuccs (s : sym) : list sym :=
+  if is_abstract d s then oalts s else flat_map ty_syms (fields_of d s).
+Definition step_set (l : list sym) : list sym :=
+  fold_left (fun a x => if mem_sym x a then a else a ++ [x]) (flat_map osuccs l) [].
+Fixpoint closure (n : nat) (acc frontier : list sym) : list sym :=
+  match n with
+  | O => acc
+  | S k => let nx := filter (fun x => negb (mem_sym x acc)) (step_set frontier) in
+           match nx with [] => acc | _ => closure k (acc ++ nx) nx end
+  end.
+Definition spec_reach (s : sym) : list sym := closure (2 + length (o_nodes o)) [] [s].
+Definition spec_recursive (s : sym) : bool := mem_sym s (spec_reach s).
+
+Definition alts_exact_obs : bool :=
+  forallb (fun kv => match fst kv with
+                     | SC p => is_abstract d (SC p) &&
+                               forallb (fun x => match x with
+                                                 | SC c => mem_sym x (o_nodes o) &&
+                                                           match get_cls d c with Some k => option_eqb Nat.eqb (c_parent k) (Some p) | None => false end
+                                                 | SB _ => false end) (snd kv) &&
+                               Nat.eqb (length (dedupe (snd kv))) (length (snd kv))
+                     | SB _ => false end) (o_alts o) &&
+  forallb (fun s => match s with
+                    | SC c => match get_cls d c with
+                              | Some k => match c_parent k with Some p => mem_sym s (oalts (SC p)) | None => true end
+                              | None => false end
+                    | SB _ => true end) (o_nodes o).
+
+Definition dist_exact_obs (ne : bool) : bool :=
+  forallb (fun kv => snd kv =? spec_min_depth ne (fst kv)) (o_dist o).
+
+Definition rec_exact_obs : bool :=
+  set_eqb (o_rec o) (filter spec_recursive (o_nodes o)).
+
+(* usable grammar: exactly the symbols reachable from the start symbol, same productions for them *)
+Definition start_sym : sym := SC (d_start d).
+Definition reach_star : list sym := start_sym :: filter (fun x => negb (sym_eqb x start_sym)) (spec_reach start_sym).
+Definition usable_nodes_exact (u : gobs) : bool := set_eqb (o_nodes u) reach_star.
+(* weaker: reachable symbols plus abstract ancestors of reachable classes *)
+Fixpoint ancestors (fuel : nat) (c : nat) : list sym :=
+  match fuel with
+  | O => []
+  | S f => match get_cls d c with
+           | Some k => match c_parent k with Some p => SC p :: ancestors f p | None => [] end
+           | None => [] end
+  end.
+Definition reach_anc : list sym :=
+  reach_star ++ flat_map (fun s => match s with SC c => ancestors (length (d_classes d)) c | SB _ => [] end) reach_star.
+Definition usable_nodes_upto_ancestors (u : gobs) : bool :=
+  forallb (fun x => mem_sym x (o_nodes u)) reach_star && forallb (fun x => mem_sym x reach_anc) (o_nodes u).
+Definition usable_same_rules (u : gobs) : bool :=
+  forallb (fun s => if is_abstract d s
+                    then list_eqb sym_eqb (match find (fun kv => sym_eqb (fst kv) s) (o_alts u) with Some kv => snd kv | None => [] end)
+                                          (oalts s)
+                    else true) reach_star.
+End Spec05.
+
+Inductive gcase5 :=
+| KGram5 (d : decl) (obs : list (pyres gobs)) (uobs : option (pyres gobs)).
+
+Definition last_grammar (d : decl) (n : nat) : res grammar :=
+  (fix go (n : nat) (d : decl) (acc : res grammar) : res grammar :=
+     match n with
+     | O => acc
+     | S k => match extract d id_order with Ok g => go k (g_decl g) (Ok g) | Err e => Err e end
+     end) n d (Err OtherError).
+
+Definition usable_matches (d : decl) (nobs : nat) (u : pyres gobs) : bool :=
+  match last_grammar d nobs with
+  | Ok g => match usable g id_order, u with
+            | Ok gu, POk ou => gobs_match gu ou
+            | Err e, PErr e' => err_eqb e e'
+            | _, _ => false
+            end
+  | Err _ => false
+  end.
+
+(* (correspondence, contract outside known regions, F10 hit, F35 hit) *)
+Definition check05 (c : gcase5) : bool * bool * bool * bool :=
+  match c with
+  | KGram5 d obs uobs =>
+      let corr := run_extractions d obs &&
+                  match uobs with Some u => usable_matches d (length obs) u | None => true end in
+      match obs with
+      | POk o :: _ =>
+          let base := alts_exact_obs d o && rec_exact_obs d o in
+          let dist_ne := d_xdepth d || dist_exact_obs d o true in
+          let dist_e := d_xdepth d || dist_exact_obs d o false in
+          let us_rules := match uobs with Some (POk u) => usable_same_rules d o u && usable_nodes_upto_ancestors d o u | _ => true end in
+          let us_exact := match uobs with Some (POk u) => usable_nodes_exact d o u | _ => true end in
+          (corr, base && dist_ne && us_rules, dist_e, us_exact)
+      | _ => (corr, true, true, true)
+      end
+  end.
+
+Definition run_c05 (cases : list gcase5) : list N * list N * list N * list N :=
+  (failing (fun c => fst (fst (fst (check05 c)))) cases,
+   failing (fun c => snd (fst (fst (check05 c)))) cases,
+   failing (fun c => snd (fst (check05 c))) cases,
+   failing (fun c => snd (check05 c)) cases).
